@@ -161,7 +161,84 @@ def fam_channel(E, np_, nc, fault_kinds, real=False, pmax=2, slow=True, close_mo
 
 
 ALLF = [Fault.NONE, Fault.CANCEL, Fault.INTERRUPT, Fault.CLOSE]
+def fam_double(E, real=False, nputs=3):
+    """one activity holds two subscriptions at once: it iterates over the channel and its loop
+    body additionally does a single `await channel`; a second, plain iterating consumer runs
+    next to it.  Every subscription is independent of every other one."""
+    gaps = [E.num('g%d' % j, 0, 10, real=real) for j in range(nputs)]
+    subs = [E.num('s%d' % i, 0, 10, real=real) for i in range(2)]
+    ch = Channel()
+    log = Log()
+
+    async def producer():
+        for j in range(nputs):
+            await (time + gaps[j])
+            log('p', 'put-call', j)
+            await ch.put(j)
+        await (time + 50)
+        await ch.close()
+
+    async def double():
+        await (time + subs[0])
+        log('c0', 'sub')
+        async for msg in ch:
+            log('c0', 'got', msg)
+            if not log.has('c0', 'inner-call'):
+                log('c0', 'inner-call')
+                try:
+                    inner = await ch
+                except StreamClosed:
+                    log('c0', 'inner-closed')
+                else:
+                    log('c0', 'inner-got', inner)
+        log('c0', 'end')
+
+    async def plain():
+        await (time + subs[1])
+        log('c1', 'sub')
+        async for msg in ch:
+            log('c1', 'got', msg)
+        log('c1', 'end')
+
+    async def root():
+        async with Scope() as top:
+            top.do(producer())
+            top.do(double())
+            top.do(plain())
+
+    out = simulate(root(), log=log)
+    bad = classify_run_exception(out.exc, allowed=())
+    E.prove(bad is None, 'run-ends-normally', bad)
+    if out.exc is not None:
+        return
+    ev = log.events
+    puts = [(log.pos(e), e[3]) for e in ev if e[1] == 'put-call']
+    for name in ('c0', 'c1'):
+        sub = log.first(name, 'sub')
+        expect = [m for pos, m in puts if pos > log.pos(sub)]
+        got = [e[3] for e in log.of(name, 'got')]
+        E.prove(got == expect, 'consumer-receives-every-message-after-subscription',
+                ('%s subscribed at %r: expected %r, received %r', name, sub[2], expect, got))
+        E.prove(log.has(name, 'end'), 'iteration-ends-after-close')
+    ic = log.first('c0', 'inner-call')
+    if ic is not None:
+        E.reach('two-subscriptions-of-one-activity')
+        later = [m for pos, m in puts if pos > log.pos(ic)]
+        ig = log.first('c0', 'inner-got')
+        if later:
+            E.prove(ig is not None and ig[3] == later[0],
+                    'single-await-returns-first-message-after-wait',
+                    ('inner await expected %r, got %r', later[0], ig))
+        else:
+            E.prove(ig is None and log.has('c0', 'inner-closed'), 'single-await-raises-after-close')
+
+
 FAMILIES = [
+    Family('double_sub', fam_double, quick=dict(), thorough=dict(real=True, nputs=4),
+           reach=['two-subscriptions-of-one-activity'],
+           bounds='an iterating consumer whose loop body does a single await on the same channel '
+                  '(two live subscriptions of one activity) next to a plain iterating consumer; '
+                  '3 (thorough 4) puts'),
     Family('p1c2', fam_channel,
            quick=dict(np_=1, nc=2, fault_kinds=ALLF, pmax=2, slow=False, close_modes=1,
                       placements=False),
